@@ -538,15 +538,23 @@ def r9_local_declarations(repo):
     is the namespace's declaration table minus the parameters, unsorted and unfiltered."""
     obs = []
     f = _m(repo, "_gen_func_body")
-    # (a) the expression-bodied form is chosen only if there is no local declaration at all
-    ifs = [n for n in iter_own_nodes(f.node) if isinstance(n, ast.If)]
-    ok, why = False, "decision `if not <locals> and ret_type != void` not found"
-    for n in ifs:
-        leaves = flatten_guard(n.test, True)
-        negs = [t for t, p in leaves if not p and isinstance(t, ast.Name)]
-        if len(leaves) >= 2 and negs:
-            ok, why = _all_locals_comp(f, negs[0], n)
-            break
+    # (a) the expression-bodied form is chosen only if there is no local declaration at all: the statement that can
+    # make the bare expression the body sits under "no locals" (whatever the layout of the if / else)
+    gens = [n for n in iter_own_nodes(f.node) if isinstance(n, ast.Assign) and isinstance(n.value, ast.Call) and
+            call_name(n.value) == "generate_expr" and isinstance(n.targets[0], ast.Name)]
+    ename = gens[0].targets[0].id if gens else "expr"
+    sites = [n for n in iter_own_nodes(f.node) if isinstance(n, (ast.Assign, ast.Return)) and n.value is not None and (
+        (isinstance(n.value, ast.Name) and n.value.id == ename and not (isinstance(n, ast.Assign) and n in gens)) or
+        (isinstance(n.value, ast.IfExp) and any(isinstance(x, ast.Name) and x.id == ename for x in (n.value.body, n.value.orelse))))]
+    ok, why = bool(sites), "no statement that makes the bare expression the body"
+    for st_ in sites:
+        negs = [t for t, p in flat_guards(st_) if not p and isinstance(t, ast.Name)]
+        ok_, why = (False, "the expression-body site at line %d is not guarded by `not <locals>`" % st_.lineno)
+        for nme in negs:
+            ok_, why = _all_locals_comp(f, nme, st_)
+            if ok_:
+                break
+        ok = ok and ok_
     obs.append(Ob("C05-R9", "_gen_func_body:expression-body-only-without-locals", _w(f), ok,
                   "an expression-bodied function cannot declare anything, so it may be chosen only when the namespace "
                   "holds no declaration besides the parameters: " + why))
